@@ -47,7 +47,7 @@ impl Check for C09 {
         }
         o.case_hash = h | 1;
         o.classes = file.classes.clone();
-        o.classes.extend(case.classes.iter().filter(|c| c.starts_with("toc:") || c.starts_with("multi") || c.starts_with("image:")).cloned());
+        o.classes.extend(case.classes.iter().filter(|c| c.starts_with("toc:") || c.starts_with("preview:") || c.starts_with("multi") || c.starts_with("image:")).cloned());
         o.classes.push(format!("chunks:{}", match cuts.len() + 1 { 1 => "1", 2..=4 => "2-4", 5..=32 => "5-32", _ => ">32" }));
         if describe {
             o.describe = Some(json!({"file_len": file.file.len(), "container": file.container, "classes": o.classes, "cuts": if cuts.len() > 20 { json!(format!("{} cuts", cuts.len())) } else { json!(cuts) }, "image": case.desc}));
